@@ -253,14 +253,16 @@ theorem wf_step_setContentTypes_partial (ct : CT) (part ctype : Str) (hok : Spec
 
 /-! ## NewSheet -/
 
-/-- `wf_step_newSheet_partial`: NewSheet keeps relationship ids unique, and keeps
-one Override per part name PROVIDED the part name it derives from
-max(sheetId)+1 is not registered yet (explicit hypothesis: the code does not
-check it). -/
+/-- `wf_step_newSheet_partial`: for ANY workbook state (also one whose part numbers differ from
+the sheet ids) NewSheet keeps relationship ids unique, and keeps one Override per part name
+provided no Override is registered for the part it picks. NewSheet now skips the ids whose
+worksheet part exists (fix 4d3235d), so the hypothesis only asks that Overrides of absent parts
+do not linger; for natively numbered workbooks it is discharged by `wf_step_newSheet`. -/
 theorem wf_step_newSheet_partial (b : Book) (name : Str)
     (hrel : Spec.relsOk b.wbRels) (hct : Spec.ctOk b.ct)
     (hno : maxRelNum b.wbRels 0 + 1 < 9223372036854775808)
-    (hfresh : sheetPartAbs (wrap64 (maxSheetId b.sheets 0 + 1)) ∉ b.ct.overrides.map (·.1)) :
+    (hfresh : sheetPartAbs (freshSheetId b.wsParts (b.wsParts.length + 1) (wrap64 (maxSheetId b.sheets 0 + 1)))
+      ∉ b.ct.overrides.map (·.1)) :
     Spec.relsOk (newSheet b name).wbRels ∧ Spec.ctOk (newSheet b name).ct := by
   unfold newSheet
   split
@@ -269,22 +271,22 @@ theorem wf_step_newSheet_partial (b : Book) (name : Str)
     exact ⟨(wf_step_addRel b.wbRels relWorksheet _ [] facts_ok.2.2.2.2.2.2.2.1 hno hrel).1,
            wf_step_setContentTypes_partial b.ct _ _ hct hfresh⟩
 
-/-- the hypothesis of `wf_step_newSheet_partial` is needed: a workbook whose
-sheetIds and part numbers disagree (sheets re-ordered in Excel: sheetId 1 is
-stored in sheet2.xml) gets two Overrides for /xl/worksheets/sheet2.xml and two
-sheets sharing one part after NewSheet. Reproduced on the real code by the
-witness `reordered-delete-new`. -/
+/-- a workbook whose sheetIds and part numbers disagree (sheets re-ordered in Excel: sheetId 1
+is stored in sheet2.xml) -/
 def reorderedBook : Book :=
   { ct := { defaults := [], overrides := [(sl "/xl/worksheets/sheet2.xml", ctWorksheet)] },
     wbRels := [⟨sl "rId2", relWorksheet, sl "worksheets/sheet2.xml", []⟩],
     sheets := [⟨sl "Sheet2", 1, sl "rId2"⟩],
     wsParts := [sl "xl/worksheets/sheet2.xml"], sheetCount := 1 }
 
-theorem finding_newsheet_part_collision :
-    (reorderedBook.ct.overrides.map (·.1)).Nodup ∧
-    ¬ ((newSheet reorderedBook (sl "New")).ct.overrides.map (·.1)).Nodup ∧
+/-- regression of the former finding (witness `reordered-delete-new`): NewSheet on such a
+workbook no longer registers a second Override for /xl/worksheets/sheet2.xml nor makes two
+sheets share one part — it skips id 2, whose part exists, and takes id 3. -/
+theorem newsheet_reordered_no_collision :
+    ((newSheet reorderedBook (sl "New")).ct.overrides.map (·.1)).Nodup ∧
     ((newSheet reorderedBook (sl "New")).wbRels.map fun r => worksheetPath r.target)
-      = [sl "xl/worksheets/sheet2.xml", sl "xl/worksheets/sheet2.xml"] := by decide +kernel
+      = [sl "xl/worksheets/sheet2.xml", sl "xl/worksheets/sheet3.xml"] ∧
+    (newSheet reorderedBook (sl "New")).sheets.map (·.sheetId) = [1, 3] := by decide +kernel
 
 /-! ## histories -/
 
@@ -473,7 +475,7 @@ theorem wf_reachable_book (ops : List BookOp) (b : Book) (h : BookOk b)
     rw [hlen] at hno hid
     cases o with
     | newSheet n =>
-      have hb := newSheet_bounds b n (by omega) (by omega)
+      have hb := newSheet_bounds b n h (by omega) (by omega)
       simp only [runBook]
       exact ih (newSheet b n) (newSheet_ok b n h (by omega) (by omega)) (by omega) (by omega)
     | deleteSheet n =>
